@@ -13,6 +13,8 @@ class Stack_put:
     never an item longer than max_item_size, nothing silently dropped."""
     params = {'self': 'Stack', 'item': 'any'}
     modifies = ('self.deque',)
+    # a bytearray is not bytes: mutable items would alias embedder data (second case)
+    cases = [('any', lambda mk, base: base), ('bytearray', lambda mk, base: dict(base, item=mk.bytearray('item')))]
 
     def requires(self, item):
         return stack_ok(self)
@@ -97,6 +99,17 @@ class Stack_len:
 
     def spec(self):
         return len(self.deque)
+
+
+@contract('classes.Stack.size')
+class Stack_size:
+    """'Return the number of bytes currently stored on the Stack.'  (ASSUMED: sum over a deque of
+    symbolic length; used by no instruction on the pinned tree)"""
+    params = {'self': 'Stack'}
+    modifies = ()
+    trusted = True
+    raises = ()
+    returns = 'nat'
 
 
 @contract('classes.Stack.empty')
